@@ -70,8 +70,8 @@ def sh(cmd, cwd=None, timeout=3600, env=None):
 def tests(wt):
     rc, out = sh("cargo test --workspace --no-fail-fast --offline", cwd=wt)
     fails = sorted(set(re.findall(r"^test (\S+) \.\.\. FAILED", out, re.M)))
-    builderr = "error: could not compile" in out or "error[E" in out
-    return fails, builderr
+    rcb, _ = sh("cargo build --workspace --offline", cwd=wt)
+    return fails, rcb != 0
 
 
 def main():
